@@ -217,6 +217,12 @@ fn axes() -> Vec<(String, Box<dyn Fn(&mut Form, &mut bool) + Send + Sync>)> {
     add(&mut v, "key-ends-in-blank", Box::new(|f, _| f.set_field("key", "up/draft ")));
     add(&mut v, "key-starts-with-blank-ends-in-tab", Box::new(|f, _| f.set_field("key", " up/draft\t")));
     add(&mut v, "key-ends-in-line-break", Box::new(|f, _| f.set_field("key", "up/draft\r\n")));
+    // values with line breaks that are not CR LF (curl, python-requests do not normalise them)
+    add(&mut v, "key-with-bare-lf", Box::new(|f, _| f.set_field("key", "up/with\nnewline.txt")));
+    add(&mut v, "meta-with-bare-lf", Box::new(|f, _| f.fields.insert(1, ("x-amz-meta-a".into(), "line one\nline two".into()))));
+    add(&mut v, "meta-with-bare-lfs-and-trailing-lf", Box::new(|f, _| f.fields.insert(1, ("x-amz-meta-a".into(), "a\nb\nc\n".into()))));
+    add(&mut v, "meta-with-bare-cr", Box::new(|f, _| f.fields.insert(1, ("x-amz-meta-a".into(), "a\rb".into()))));
+    add(&mut v, "meta-with-crlf-inside", Box::new(|f, _| f.fields.insert(1, ("x-amz-meta-a".into(), "a\r\nb".into()))));
     add(&mut v, "meta-edge-blanks", Box::new(|f, _| f.fields.insert(1, ("x-amz-meta-a".into(), " v ".into()))));
     add(&mut v, "meta-blank-only", Box::new(|f, _| f.fields.insert(1, ("x-amz-meta-a".into(), " ".into()))));
     add(&mut v, "meta-ends-in-tab", Box::new(|f, _| f.fields.insert(1, ("x-amz-meta-a".into(), "v\t".into()))));
